@@ -2,13 +2,14 @@
 TUS = ['src/base/QXmppSasl.cpp', 'src/base/QXmppUtils.cpp', 'src/base/QXmppStreamManagement.cpp', 'src/base/QXmppStanza.cpp', 'src/base/QXmppIq.cpp',
        'src/base/QXmppBindIq.cpp', 'src/base/QXmppNonza.cpp', 'src/base/Stream.cpp', 'src/server/QXmppPasswordChecker.cpp']
 MODELS = ['c16_pre.c', 'qt_core.c', 'qt_list.c', 'qt_dom.c', 'qt_object.c', 'c16_env.c']
+LB = {r'^_ZNSt6ranges14__copy_or_move': 70}
 def I(name, entry, **kw):
-    d = dict(name=name, entry='h_' + entry, unwind=8, timeout_s=300, mem_gb=6, cdefs={'VP_ACTIVATE_HOOK': 'c16_on_signal'}, bound=''); d.update(kw); return d
+    d = dict(name=name, entry='h_' + entry, unwind=8, timeout_s=300, mem_gb=6, object_bits=12, cdefs={'VP_ACTIVATE_HOOK': 'c16_on_signal'}, bound=''); d.update(kw); return d
 SPEC = dict(
     property='C16',
     groups=[
-        dict(name='client', harness='h.cpp', tus=TUS, models=MODELS, ranges_shim=True,
-             instances=[I('client_unauth', 'client_unauth'), I('client_auth_route', 'client_auth_route'), I('client_auth_bind', 'client_auth_bind'), I('client_auth_drop', 'client_auth_drop')]),
+        dict(name='client', harness='h.cpp', tus=TUS, models=MODELS, ranges_shim=True, loop_bounds=LB,
+             instances=[I('client_unauth', 'client_unauth'), I('client_auth_route', 'client_auth_route'), I('client_auth_bind', 'client_auth_bind'), I('client_auth_drop', 'client_auth_drop'), I('probe_warm', 'probe_warm'), I('probe_world', 'probe_world')]),
     ],
     bounds=[], assumptions=[], outside=[],
 )
